@@ -324,7 +324,12 @@ static int URI_FUNC(RemoveBaseUriImpl)(URI_TYPE(Uri) * dest,
 									if (absSource->absolutePath || URI_FUNC(IsHostSet)(absSource)) {
 										dest->absolutePath = URI_TRUE;
 									} else {
-										dest->scheme = absSource->scheme;
+										/* "." resolves to the empty path: the base path
+										 * is empty or a single rootless segment here */
+										if (!URI_FUNC(AppendSegment)(dest, URI_FUNC(ConstPwd),
+												URI_FUNC(ConstPwd) + 1, memory)) {
+											return URI_ERROR_MALLOC;
+										}
 									}
 								}
 							}
